@@ -143,6 +143,26 @@ func runC18(c *Ctx) {
 	c18Constructors(c)
 	c18Container(c)
 	c18Registry(c)
+	// O18.8: reflection that depends on the kind of a registered shape
+	c.Rule("O18.8", "every supported constructor shape survives the registry's reflection: reflect.Value.IsNil - which panics on a struct, an int, ... - is applied in core/plugin only under a test that the value's Kind() is a nillable kind, or to a value listed with the reason why its kind is fixed (the error result); an implementation type may be a pointer, an interface or a plain value type")
+	var roots []*ssa.Function
+	for _, n := range []string{"New", "NewFactory"} {
+		if f := c.P.Func("core/plugin", "Registry", n); f != nil {
+			roots = append(roots, f)
+		}
+	}
+	if sp := c.P.SSAPkg("core/plugin"); sp != nil {
+		for _, f := range PkgFuncs(sp) {
+			if IsProdFile(c.P.File(f.Pos())) && f.Parent() == nil {
+				roots = append(roots, f)
+			}
+		}
+	}
+	if len(roots) == 0 {
+		c.Anchor("O18.8", "core/plugin.Registry.New / NewFactory")
+	} else {
+		runInventory(c, "O18", roots, kReasoned, map[string]string{"reflectnil": "O18.8"})
+	}
 }
 
 func c18Registrations(c *Ctx) {
